@@ -95,23 +95,29 @@ Definition set_mode_at (m : mfs) (p : rpath) (mode : N) : mfs :=
 Definition chmod_pre_check (o : chmod_opts) (x : entry) : option errkind :=
   match mode_for x (ch_dirs o) (ch_sym o) with inl _ => None | inr e => Some e end.
 
-Definition chmod_pre_apply (o : chmod_opts) (m : mfs) (x : entry) : mfs :=
+(* a followed link stands for its target: `vfs.entry(x.path()).ok()` on the live state, else the entry itself *)
+Definition chmod_target (o : chmod_opts) (m : mfs) (x : entry) : entry :=
+  if ch_follow o && e_link x then match m_ents m !! e_path x with Some t => t | None => x end else x.
+
+Definition chmod_pre_apply (o : chmod_opts) (m : mfs) (x0 : entry) : mfs :=
+  let x := chmod_target o m x0 in
   match mode_for x (ch_dirs o) (ch_sym o) with
   | inr _ => m
   | inl m1 =>
-      if (negb (e_link x) || ch_follow o) && e_dir x && negb (revoking_mode (e_mode x) m1) && negb (N.eqb (e_mode x) m1)
+      if negb (e_link x) && e_dir x && negb (revoking_mode (e_mode x) m1) && negb (N.eqb (e_mode x) m1)
       then set_mode_at m (e_path x) m1 else m
   end.
 
 (* the loop body over yielded entries *)
-Definition chmod_item_apply (o : chmod_opts) (m : mfs) (src : entry) : mfs * option errkind :=
+Definition chmod_item_apply (o : chmod_opts) (m : mfs) (src0 : entry) : mfs * option errkind :=
+  let src := chmod_target o m src0 in
   let m2r := if e_dir src then mode_for src (ch_dirs o) (ch_sym o)
              else if e_file src then mode_for src (ch_files o) (ch_sym o)
              else inl 0%N in
   match m2r with
   | inr e => (m, Some e)
   | inl m2 =>
-      if (negb (e_link src) || ch_follow o) && negb (N.eqb m2 (e_mode src)) && negb (N.eqb m2 0)
+      if negb (e_link src) && negb (N.eqb m2 (e_mode src)) && negb (N.eqb m2 0)
       then (set_mode_at m (e_path src) m2, None) else (m, None)
   end.
 
